@@ -1,0 +1,155 @@
+//! Verification hook (feature `verif`, off by default).
+//!
+//! Lets an external harness run hannibal's unmodified tokio code path on a
+//! controlled executor with virtual time. A thread-local [`Backend`] receives
+//! every task spawn and every sleep; when no backend is installed on the
+//! current thread everything delegates to the real `tokio` / `futures-timer`,
+//! so enabling the feature alone changes nothing.
+//!
+//! The modules [`rt`], [`rt_aux`] and [`timer`] mimic exactly the parts of
+//! `tokio` / `futures_timer` that hannibal uses, so that a block-local
+//! `use crate::verif::rt as tokio;` makes the existing lines compile against
+//! them unchanged.
+#![allow(missing_docs, clippy::unwrap_used, clippy::expect_used)]
+
+use std::{cell::RefCell, future::Future, pin::Pin, rc::Rc, time::Duration};
+
+pub type BoxFut = Pin<Box<dyn Future<Output = ()> + Send + 'static>>;
+
+/// Which of hannibal's two spawn sites created a task.
+#[derive(Clone, Copy, Debug, PartialEq, Eq)]
+pub enum SpawnKind {
+    /// `Spawner::spawn_actor`: an actor's event loop.
+    Actor,
+    /// `Spawner::spawn_future`: timers and other helper tasks.
+    Aux,
+}
+
+pub trait Backend {
+    fn spawn(&self, kind: SpawnKind, fut: BoxFut);
+    /// The deadline is fixed when this is called (like `tokio::time::sleep`).
+    fn sleep(&self, kind: SleepKind, d: Duration) -> BoxFut;
+}
+
+/// Which sleep site asked.
+#[derive(Clone, Copy, Debug, PartialEq, Eq)]
+pub enum SleepKind {
+    /// `Spawner::sleep` (timers).
+    Sleep,
+    /// `futures_timer::Delay` in `timeout_fut` (handler timeout).
+    Delay,
+}
+
+thread_local! {
+    static BACKEND: RefCell<Option<Rc<dyn Backend>>> = const { RefCell::new(None) };
+}
+
+pub fn install(b: Rc<dyn Backend>) {
+    BACKEND.with(|s| *s.borrow_mut() = Some(b));
+}
+
+pub fn uninstall() {
+    BACKEND.with(|s| *s.borrow_mut() = None);
+}
+
+fn backend() -> Option<Rc<dyn Backend>> {
+    BACKEND.with(|s| s.borrow().clone())
+}
+
+mod join {
+    use super::*;
+    use futures::channel::oneshot;
+    use std::task::{Context, Poll};
+
+    #[derive(Clone, Copy, Debug)]
+    pub struct JoinError;
+
+    pub enum JoinHandle<T> {
+        Real(tokio::task::JoinHandle<T>),
+        Virt(oneshot::Receiver<T>),
+    }
+
+    impl<T> Future for JoinHandle<T> {
+        type Output = Result<T, JoinError>;
+        fn poll(self: Pin<&mut Self>, cx: &mut Context<'_>) -> Poll<Self::Output> {
+            match self.get_mut() {
+                JoinHandle::Real(h) => Pin::new(h).poll(cx).map(|r| r.map_err(|_| JoinError)),
+                JoinHandle::Virt(rx) => Pin::new(rx).poll(cx).map(|r| r.map_err(|_| JoinError)),
+            }
+        }
+    }
+
+    pub fn spawn<F>(kind: SpawnKind, future: F) -> JoinHandle<F::Output>
+    where
+        F: Future + Send + 'static,
+        F::Output: Send + 'static,
+    {
+        match backend() {
+            Some(b) => {
+                let (tx, rx) = oneshot::channel();
+                b.spawn(
+                    kind,
+                    Box::pin(async move {
+                        let out = future.await;
+                        let _ = tx.send(out);
+                    }),
+                );
+                JoinHandle::Virt(rx)
+            }
+            None => JoinHandle::Real(tokio::spawn(future)),
+        }
+    }
+}
+
+macro_rules! rt_facade {
+    ($name:ident, $kind:expr) => {
+        pub mod $name {
+            use super::*;
+            pub fn spawn<F>(future: F) -> task::JoinHandle<F::Output>
+            where
+                F: Future + Send + 'static,
+                F::Output: Send + 'static,
+            {
+                super::join::spawn($kind, future)
+            }
+            pub mod task {
+                pub use super::super::join::{JoinError, JoinHandle};
+            }
+            pub mod time {
+                use super::super::*;
+                pub fn sleep(d: Duration) -> BoxFut {
+                    match backend() {
+                        Some(b) => b.sleep(SleepKind::Sleep, d),
+                        None => Box::pin(tokio::time::sleep(d)),
+                    }
+                }
+            }
+        }
+    };
+}
+
+rt_facade!(rt, SpawnKind::Actor);
+rt_facade!(rt_aux, SpawnKind::Aux);
+
+pub mod timer {
+    use super::*;
+    use std::task::{Context, Poll};
+
+    pub struct Delay(BoxFut);
+
+    impl Delay {
+        pub fn new(d: Duration) -> Self {
+            match backend() {
+                Some(b) => Delay(b.sleep(SleepKind::Delay, d)),
+                None => Delay(Box::pin(futures_timer::Delay::new(d))),
+            }
+        }
+    }
+
+    impl Future for Delay {
+        type Output = ();
+        fn poll(mut self: Pin<&mut Self>, cx: &mut Context<'_>) -> Poll<()> {
+            self.0.as_mut().poll(cx)
+        }
+    }
+}
